@@ -1,6 +1,6 @@
 TRUSTED = [
     "Lean 4.33 kernel (lake build); axioms allowed in property theorems: propext, Classical.choice, Quot.sound (audited every run)",
-    "hand-written Lean model SLV/Model/*.lean of the Rust operators; tied to /repo's working tree by the sampled correspondence check (Rust harness vs exact model), not by translation",
+    "hand-written Lean model SLV/Model/*.lean of the Rust operators; tied to /repo's working tree twice: (a) tools/rs2lean.py translates the arithmetic core of src/bi.rs and src/mul.rs to Lean on every run and kernel-checked theorems (SLV.Gen.BiTie/MulTie) show the translation equals the model - trusted: the translator's parser and its naming conventions (accessor bodies are pinned token for token); (b) the sampled correspondence check (Rust harness vs exact model) covers everything, including what the translator does not (constructors' check loops, trait plumbing, products, merge, containers)",
     "theorems are about the exact-rational reading (XQ) of the model: rounding is not modelled; the gap is measured per case against tolerance tau (2^-36 f64, 2^-13 f32)",
     "value-level meaning of approx::ulps_eq (is_zero: |v|<=eps, is_one: 1-2eps<=v<=1+4eps) used by the exact model",
     "Rust harness /verif/harness (calls the real crate in-process, catch_unwind), Lean driver parser, python orchestrator and generators",
